@@ -95,8 +95,9 @@ def generate_edits_from_text(original_text: str, modified_text: str) -> List[Doc
 
                             continue
 
-                # Standard Insertion: Target=Anchor, New=Anchor+Text
-                edit = DocumentEdit(target_text=anchor, new_text=anchor + text, comment="Diff: Text inserted")
+                # Standard Insertion: empty target at the cursor position (a pure insertion
+                # in coordinates of the original text).
+                edit = DocumentEdit(target_text="", new_text=text, comment="Diff: Text inserted")
                 edit._match_start_index = current_original_index
                 edits.append(edit)
 
